@@ -3,4 +3,4 @@ Require Extraction. Require ExtrOcamlBasic.
 From NV Require Import Base.Bytes C17.Tables C17.Model.
 Extraction Language OCaml.
 Extraction "c17_model.ml" strip tobytes frombuffer reorder_to reorder_from read_data_block parse merge
-  c_add c_remove c_remove_by_intent c_select c_agg.
+  arr2txt_int loadtxt_int fmt_int parse_int c_add c_remove c_remove_by_intent c_select c_agg.
